@@ -23,6 +23,20 @@ CLAIMED = {
              'prototypes (it is a re-implementation, see C19).',
         technique='custom cross-language declaration checker over clang-resolved prototypes and macro table',
     ),
+    'C15': dict(
+        category='proof',
+        text='Exhaustive static evaluation of the catalogue initialisers (180 NIST compounds, 10 radionuclides, 107 '
+             'elements; 38 crystals from data/Crystals.dat and, thorough tier, from the generated unit), of every index '
+             'macro in the public headers against the entry it names (name-to-macro rule reproduced and checked for all '
+             '180), and of the bodies of the 11 lookup/list/free functions: same array and same count on every access '
+             'path, index guard, deep copy of every field with allocation and memcpy sized by the length field that the '
+             'catalogue data itself associates with the array, destructor releases every pointer field once.',
+        design_ref='DESIGN.md section 2, C15',
+        note='Trusted: clang 14 initialiser trees and constant evaluation; independent readers of atomicweight.dat, '
+             'fluor_lines.dat, Crystals.dat. Mass-fraction sums use exact decimals with the stated rounding tolerance. '
+             'Not decided: behaviour of user code that mutates copies (ownership shape is decided, not executions).',
+        technique='initialiser evaluation + structural rules over the resolved AST of the lookup functions',
+    ),
 }
 
 NOT_YET = {}
